@@ -59,11 +59,15 @@ typedef Integer Z;
 
 static sigjmp_buf jb;
 static void on_signal(int s) { siglongjmp(jb, s); }
-static void arm(double sec) {
+// The budget of a call is CPU time of this process (ITIMER_PROF): a call that loops for ever burns it whatever the load of
+// the machine, and a correct call is never cut short because twenty other checks are running.  A wall-clock timer of 30x
+// the budget is only a backstop against a call that blocks without using the CPU.
+static void arm1(int which, double sec) {
     struct itimerval t; t.it_interval.tv_sec = 0; t.it_interval.tv_usec = 0;
     t.it_value.tv_sec = (long)sec; t.it_value.tv_usec = (long)((sec - (long)sec) * 1e6);
-    setitimer(ITIMER_REAL, &t, 0);
+    setitimer(which, &t, 0);
 }
+static void arm(double sec) { arm1(ITIMER_PROF, sec); arm1(ITIMER_REAL, 30 * sec); }
 static void quiet_stderr() { int fd = open("/dev/null", O_WRONLY); if (fd >= 0) { dup2(fd, 2); close(fd); } }
 static inline int nz(int x) { return x != 0; }
 static const char* GARBAGE = "-123456789012345678901234567890";   // destinations start from a non-trivial value
@@ -93,7 +97,7 @@ int main(int argc, char** argv) {
         static char altstack[1 << 16];
         stack_t ss; ss.ss_sp = altstack; ss.ss_size = sizeof(altstack); ss.ss_flags = 0; sigaltstack(&ss, 0);
         struct sigaction sa; sa.sa_handler = on_signal; sigemptyset(&sa.sa_mask); sa.sa_flags = SA_ONSTACK | SA_NODEFER;
-        sigaction(SIGALRM, &sa, 0); sigaction(SIGFPE, &sa, 0); sigaction(SIGSEGV, &sa, 0); sigaction(SIGABRT, &sa, 0); sigaction(SIGBUS, &sa, 0);
+        sigaction(SIGALRM, &sa, 0); sigaction(SIGPROF, &sa, 0); sigaction(SIGFPE, &sa, 0); sigaction(SIGSEGV, &sa, 0); sigaction(SIGABRT, &sa, 0); sigaction(SIGBUS, &sa, 0);
     }
     std::string line;
     while (std::getline(std::cin, line)) {
@@ -105,7 +109,7 @@ int main(int argc, char** argv) {
         int sig = sigsetjmp(jb, 1);
         if (sig != 0) {
             arm(0);
-            if (sig == SIGALRM) std::cout << "HANG" << std::endl; else std::cout << "CRASH " << sig << std::endl;
+            if (sig == SIGALRM || sig == SIGPROF) std::cout << "HANG" << std::endl; else std::cout << "CRASH " << sig << std::endl;
             continue;
         }
         bool scripted = op.size() > 2 && op[0] == 's' && op[1] == '.';
@@ -206,6 +210,10 @@ int main(int argc, char** argv) {
         else if (op == "s.write") { std::ostringstream w; SD.write(w, a[0]); o << "[" << nospace(w.str()) << "]"; }
         else if (op == "s.divisors") { std::list<Z> L; L.push_back(Z(77)); SD.divisors(L, a[0]); put_list(o, L); }
         else if (op == "s.miller") { ScriptRand g2; o << nz(IP.Miller(g2, a[0])); }
+        else if (op == "s.lehmann") { ScriptRand g2; o << nz(IP.Lehmann(g2, a[0])); }
+        else if (op == "s.test_lehmann") { ScriptRand g2; Z& x = IP.test_Lehmann(g2, r, a[0]); o << r << " " << (&x == &r); }
+        else if (op == "fermat") { FermatDom FMD; Z& x = FMD.fermat(r, (size_t)(uint64_t)a[0]); o << r << " " << (&x == &r); }
+        else if (op == "pepin") { FermatDom FMD; o << nz(FMD.pepin((size_t)(uint64_t)a[0])); }
         // ------------------------------------------------------------ complete factorisation
         else if (op == "set2.vec") { std::vector<Z> Lf; std::vector<unsigned long> Lo; bool f = FD.set(Lf, Lo, a[0]); o << f; put_pairs(o, Lf, Lo); }
         else if (op == "set2.list") { std::list<Z> Lf; std::list<unsigned long> Lo; bool f = FD.set(Lf, Lo, a[0]); o << f; put_pairs(o, Lf, Lo); }
